@@ -21,6 +21,8 @@ type Env struct {
 	pkg    *types.Package
 	useSrc bool
 	pos    token.Pos
+	entrySt *State // state at loop entry, for atEntry(e)
+	headSt *State // loop-head state of the current iteration, for atHead(e)
 	loopIdx *Val // value of the hidden index of the range loop whose invariant is being evaluated
 	noHeap bool // pure-function bodies and lemmas: no memory access
 }
@@ -148,7 +150,32 @@ func (g *Gen) findImported(name string) *types.Package {
 	if p, ok := g.impByName[name]; ok {
 		return p
 	}
-	return nil
+	// search the import graph of the module's packages
+	seen := map[*types.Package]bool{}
+	var found *types.Package
+	var visit func(p *types.Package, depth int)
+	visit = func(p *types.Package, depth int) {
+		if found != nil || seen[p] || depth > 4 {
+			return
+		}
+		seen[p] = true
+		for _, imp := range p.Imports() {
+			if imp.Name() == name {
+				found = imp
+				return
+			}
+		}
+		for _, imp := range p.Imports() {
+			visit(imp, depth+1)
+		}
+	}
+	for _, sp := range g.pkgs {
+		visit(sp.Pkg, 0)
+	}
+	if found != nil {
+		g.impByName[name] = found
+	}
+	return found
 }
 
 // findField resolves a (possibly promoted) field; returns the path of field names and the field type.
@@ -360,6 +387,24 @@ func (g *Gen) eval(x *CExpr, env *Env) (Val, error) {
 		return Val{T: fmt.Sprint(int(s[0])), S: "Int", Ty: types.Typ[types.UntypedInt]}, nil
 	case "id":
 		return g.evalIdent(x, env)
+	case "call":
+		if x.Name == "atEntry" && len(x.Args) == 1 {
+			if env.entrySt == nil {
+				return Val{}, fmt.Errorf("atEntry() is only available in loop invariants")
+			}
+			n := *env
+			n.st = env.entrySt
+			return g.eval(x.Args[0], &n)
+		}
+		if x.Name == "atHead" && len(x.Args) == 1 {
+			if env.headSt == nil {
+				return Val{}, fmt.Errorf("atHead() is only available in loop invariants")
+			}
+			n := *env
+			n.st = env.headSt
+			return g.eval(x.Args[0], &n)
+		}
+		return g.evalCall(x, env)
 	case "old":
 		if env.old == nil {
 			return Val{}, fmt.Errorf("old() not available here")
@@ -504,8 +549,6 @@ func (g *Gen) eval(x *CExpr, env *Env) (Val, error) {
 			body = fmt.Sprintf("(! %s :pattern (%s))", body, strings.Join(ts, " "))
 		}
 		return Val{T: fmt.Sprintf("(%s (%s) %s)", x.Op, strings.Join(bs, " "), body), S: "Bool", Ty: types.Typ[types.Bool]}, nil
-	case "call":
-		return g.evalCall(x, env)
 	}
 	return Val{}, fmt.Errorf("unsupported expression %s", x)
 }
